@@ -31,6 +31,13 @@ ASSUMPTIONS = [
     'os.scandir lists a directory in some order: Section variable scandir with the hypothesis that it is a permutation',
     'fnmatch.fnmatch / PurePath.match (glob patterns of name, stem, suffix(es), path) are oracle tables computed by the '
     'harness per case; an oracle miss is a distinct verdict (VMiss), never a default',
+    'regex patterns (name|stem|suffixes|suffix|path ~ REGEX): oracle tables computed with re.compile(..).search(..), the call '
+    'MatchesRegex makes with is_full_match=False',
+    'contents TEXT-MATCHER for text matchers other than is-empty / equals / !: opaque oracle per (matcher number, file '
+    'contents); the table holds the verdict of the real matcher obtained through the separate `contents` INSTRUCTION on a '
+    'file with those contents (PASS / FAIL / HARD_ERROR)',
+    'run PROGRAM: oracle per (program number, path) = the program started by the harness with the path as last argument '
+    'exits with code 0',
     'symbolic-link cycles are outside the inductive tree type; the generator does not create them',
     'populate: a symbolic link TO A DIRECTORY on the way of a written path is outside the model (outcome ViaLink, '
     'guard of the confinement theorem); dangling links and links to files are modelled',
@@ -1259,7 +1266,9 @@ def run(ctx, res):
                 'top of the list or nested 1-2 levels, instruction path of 1-3 components, with an entry called MARKER-c15 that is '
                 'searched for in the whole sandbox root and the watched directory; '
                 'matcher cases: trees of <= 9 nodes + <= 3 symbolic links (to file, to directory, dangling; no cycles), depth <= 3, '
-                'random creation order; expressions of depth <= 3 over every files-matcher and file-matcher of the model, every '
+                'random creation order; expressions of depth <= 3 over every files-matcher and file-matcher of the model (glob and regex '
+                'name/stem/suffixes/suffix/path patterns, contents with is-empty/equals/! and 9 opaque text matchers, run with 5 '
+                'programs, type, dir-contents), every '
                 'min/max depth in {none,0..3}, both nestings of -selection / -with-pruned, FILES-CONDITIONs built from the paths '
                 'of the tree (with ./ // variants, duplicates, missing names) and the complete listing of the tree. non-trivial := '
                 'populate: >= 2 of {multi-component name, +=, nesting, copy, pre-existing link} or a HARD_ERROR with one; '
